@@ -163,9 +163,6 @@ def run(repo, chk):
                     and not (isinstance(n.value, ast.Constant) and n.value.value is False):
                 bad.append(f"{q}: {norm(n)}")
     chk.ob("R14.2", "package:user-function-not-discarded", not bad, "ptera/", f"the function the user holds is never marked as a helper {bad}")
-    ap = repo.func("transform.SyncedStackedTransforms._apply")
-    chk.ob("R14.2", "transform.SyncedStackedTransforms._apply:clears-mark", any(isinstance(n, ast.Assign) and norm(n) == "fn.__ptera_discard__ = False"
-           for n in walk_local(ap.node)), ap.where, "_apply resets the mark on the real target (it may have been a base_function copy before)")
     dr = repo.func("selector.dict_resolver.resolve")
     t = norm(dr.node)
     chk.ob("R14.2", "selector.dict_resolver.resolve:filters-discarded", "not getattr(fn, '__ptera_discard__', False)" in t and "inspect.isfunction(fn)" in t, dr.where,
